@@ -42,6 +42,7 @@ func checkC14(p *ana.Prog, r *ana.Result) {
 	c14CookieTags(p, r)
 	c14NTSKE(p, r)
 	c14FieldWalk(p, r)
+	c14ExtLen(p, r, "C14.ext-length", true, false)
 }
 
 // c14Lengths: the declared lengths used above are the repo's constants / length functions.
